@@ -8,7 +8,7 @@ ID = 'C01'
 LEVEL = 'exploration'
 SALTS = 8
 GUARD_STEPS = 250
-RULE = ('every 3rd run = its slice of a systematic enumeration: every quantifier node shape ([negated] quantifier over a [negated] body from 6 bodies, 48 shapes) in 23 small first-order contexts, in one logic per distinct rule-implementation group (quick) / every quantified logic (thorough), one seeded configuration each, plus a propositional scale sweep (n = 1..20 copies of one letter against n-1 / n / n+1 distinct letters, invalid by construction with a known counter-valuation); the other runs: each run = one generated argument (propositional / modal / first-order with identity; 30% mutated library examples) '
+RULE = ('every 3rd run = its slice of a systematic enumeration: every quantifier node shape ([negated] quantifier over a [negated] body from 6 bodies, 48 shapes) in 23 small first-order contexts, in one logic per distinct rule-implementation group (quick) / every quantified logic (thorough), one seeded configuration each, plus the propositional node shapes in literal contexts that C03 sweeps (soundness side) and a propositional scale sweep (n = 1..20 copies of one letter against n-1 / n / n+1 distinct letters, invalid by construction with a known counter-valuation); the other runs: each run = one generated argument (propositional / modal / first-order with identity; 30% mutated library examples) '
         'in one of the 57 logics (stratified), proved K times (quick 3, thorough 6) under different optimisation-option '
         'combinations, drive modes, seeded tie-break orders and cache sizes; whenever a run completes with every branch closed, '
         '(a) the bounded countermodel search of the reference semantics R1 (exhaustive valuations for propositional arguments; '
@@ -201,6 +201,32 @@ def run(ctx):
             judge_family(ctx, [proofsim.Config(logics[e % len(logics)], prems, conc, opts,
                 order_seed=srng.choice((0, srng.getrandbits(32))), cache=srng.choice(proofsim.CACHE_SIZES), drive='build')], record=False)
             if ctx.violations:
+                return
+        # propositional node shapes in literal contexts (the enumeration C03 sweeps), soundness side only
+        from . import c03
+        preps = c03.representatives()
+        npc = c03.ENUM_SIZE * len(preps)
+        per3 = -(-npc // nslices)
+        for k in range(j * per3, min(npc, (j + 1) * per3)):
+            k = (k + off) % npc
+            logic = preps[k % len(preps)]
+            prems, conc = c03.enumerated_case(k // len(preps))
+            opts = dict(proofwl.ALL_OPT_COMBOS[srng.randrange(4)])
+            opts['is_build_models'] = False
+            opts['max_steps'] = GUARD_STEPS
+            cfg = proofsim.Config(logic, prems, conc, opts, order_seed=srng.choice((0, srng.getrandbits(32))),
+                cache=srng.choice(proofsim.CACHE_SIZES), drive='build')
+            res = proofsim.run(cfg)
+            ctx.count('enumerated_prop_cases')
+            if res.outcome != 'valid':
+                continue
+            sem = refsem.get(logic)
+            ok, m = refsem.truth_table_valid(sem, prems, conc, max_cells=6)
+            if ok is False:
+                cause = diagnose.unsound(sem, res.tab, m, frames=False)
+                key = 'unsound|' + cause if cause.startswith(('rule=', 'closure=')) else 'unsound|%s|%s|%s' % (logic, cause, proofcheck.shape(prems, conc))
+                proofcheck.report(ctx, ID, 'unsound', cfg, '%s %s: reported valid, but R1 verifies the countermodel %s (found by truth-table; %s)' % (
+                    logic, lexgen.argstr(prems, conc), brief(m), cause), key)
                 return
         # scale sweep (propositional): n = 1..20 copies of one letter against n-1 / n / n+1 distinct
         # letters, invalid by construction with a known counter-valuation (checked by R1's evaluator)
